@@ -102,6 +102,17 @@ def run(ctx) -> None:
                 ctx.check(ok, "C17.R3.checked-subprocess", "ShellDisassembler.disassemble", "check!=True",
                           "subprocess.run(check=True): a non-zero exit raises")
                 break
+    # R3c: the listing is decoded by a codec that can fail: an input that is not text (UTF-16, compressed, a binary given
+    # with -s) ends in an error, it is not read as mojibake that contains no instruction
+    LENIENT = {"latin-1", "latin1", "latin_1", "iso-8859-1", "iso8859-1", "l1", "cp437", "cp850", "cp1252", "mac-roman", "charmap"}
+    for s in match_scenarios(Im, file_types=("assembly",), return_modes=("bool",), search_modes=("first_find",), only_addrs=(False,), configs=({},)):
+        for e in s.path.events:
+            if e.kind == "open" and "INPUT_FILE" in Im.expr_of(e.file):
+                enc = Im.expr_of(e.kwargs.get("encoding", NONE)).strip("'\"").lower()
+                errs = Im.expr_of(e.kwargs.get("errors", NONE)).strip("'\"").lower()
+                ctx.check(enc not in LENIENT and errs in ("none", "strict"), "C17.R3.undecodable-input-is-loud", "NullDisassembler.disassemble",
+                          f"open(..., encoding={enc!r}, errors={errs!r})", "the listing is opened with a codec and error mode that reject undecodable bytes")
+        break
     # R4 times
     I = make_interp(ctx.p)
     nb = ctx.p.find_class("PatternNodeBuilderNoParents")
@@ -159,6 +170,9 @@ def run(ctx) -> None:
         ("scalar body", [{S("M"): 5}]),
         ("negative times", [{S("M"): {"times": -1}}]),
         ("inverted times", [{"$or": [S("A"), S("B")], "times": {"min": 3, "max": 2}}]),
+        ("inverted times with an upper bound of 0", [{"$or": [S("A"), S("B")], "times": {"min": 2, "max": 0}}]),
+        ("inverted times with an upper bound of 0, body spelling", [{S("M"): {"times": {"min": 1, "max": 0}}}]),
+        ("negative lower bound", [{S("M"): {"times": {"min": -1, "max": 2}}}]),
         ("operand with children", [{S("M"): [{S("O"): [S("P")]}]}]),
     ]
     for label, pat in bad_shapes:
